@@ -62,7 +62,10 @@ def deriv_check(o, name, analytic, f, x, regime, scale=None):
     d1, d2 = _fd(f, x, 1e-5), _fd(f, x, 5e-6)
     sc = max(abs(d1), abs(d2), abs(analytic)) if scale is None else scale
     err = min(abs(analytic - d1), abs(analytic - d2))
-    o.close(name, err, 0.0, 0.0, atol=1e-6 * sc + 1e-300, regime=regime, analytic=float(analytic), fd=float(d2))
+    # rounding error of the central difference itself: ~ eps |f(x)| / h (matters where the closure is a small difference of large terms,
+    # e.g. a stiffened gas with rho_inf c_s^2 >> rho e; found by the thorough atheris campaign)
+    fd_noise = 8 * 2.3e-16 * abs(f(x)) / (5e-6 * abs(x))
+    o.close(name, err, 0.0, 0.0, atol=1e-6 * sc + fd_noise + 1e-300, regime=regime, analytic=float(analytic), fd=float(d2))
 
 
 def check_eos(case):
